@@ -45,6 +45,21 @@ def gen_e2e_cases(rng, tier):
                 r = _full(di, rng, P) if rng.random() < 0.5 else None
                 writes.append([pname, v, r])
             reads.append([pname, _full(di, rng, P)])
+        # structs with optional members: the node's declaration of an ALL-optional struct is exported without the key
+        # "optional" (StructOf.export_datatype) and the client has to rebuild "all optional" from that; partial values
+        # (optional members left out) are valid writes: the members passed reach the driver, the others keep their value
+        names = rng.sample(['a', 'b', 'c', 'd'], rng.randint(2, 3))
+        params.append(['pso', {'type': 'struct', 'members': {n: P.gen_datainfo(rng, 0) for n in names},
+                               'optional': sorted(names)}])
+        for pname, di in params:
+            if di['type'] == 'struct' and (di.get('optional') or pname == 'pso'):
+                if pname == 'pso':
+                    writes.append([pname, _full(di, rng, P), None])
+                    reads.append([pname, _full(di, rng, P)])
+                for _ in range(2 if pname == 'pso' else 1):
+                    v = _partial(di, rng, P)
+                    if v is not None:
+                        writes.append([pname, v, _full(di, rng, P) if rng.random() < 0.3 else None])
         rng.shuffle(writes)
         cases.append({'kind': 'e2e', 'proxy': False, 'params': params, 'writes': writes, 'reads': reads})
     return cases
@@ -78,6 +93,59 @@ def _full(di, rng, P):
                 strip(m)
     strip(full)
     return P.spec_import(di, P.gen_wire(full, rng))
+
+
+def _partial(di, rng, P):
+    """a valid value of a struct with at least one optional member left out and at least one member present"""
+    full = _full(di, rng, P)
+    members = [k for k, _ in full[1]]
+    opt = [k for k in di.get('optional', []) if k in members]
+    if not opt or len(members) < 2:
+        return None
+    drop = set(rng.sample(opt, rng.randint(1, min(len(opt), len(members) - 1))))
+    return ['d', [[k, x] for k, x in full[1] if k not in drop]]
+
+
+def node_datatype(di):
+    """the datatype object a module author declares (constructors of frappy.datatypes, NOT get_datatype: the node side
+    of 'description -> datatypes' is export_datatype of these objects, the client side is get_datatype of the result).
+    A struct declared without "optional" is StructOf(**members): frappy's default, all members optional."""
+    import frappy.datatypes as D
+    t = di['type']
+    if t == 'double':
+        kw = {k: di[k] for k in ('unit',) if k in di}
+        return D.FloatRange(di.get('min'), di.get('max'), **kw)
+    if t == 'int':
+        return D.IntRange(di['min'], di['max'])
+    if t == 'scaled':
+        return D.ScaledInteger(di['scale'], di['min'] * di['scale'], di['max'] * di['scale'])
+    if t == 'bool':
+        return D.BoolType()
+    if t == 'enum':
+        return D.EnumType('', members=di['members'])
+    if t == 'string':
+        return D.StringType(di.get('minchars', 0), D.UNLIMITED if di.get('maxchars') is None else di['maxchars'],
+                            isUTF8=di.get('isUTF8', False))
+    if t == 'blob':
+        return D.BLOBType(di.get('minbytes', 0), di['maxbytes'])
+    if t == 'array':
+        return D.ArrayOf(node_datatype(di['members']), di.get('minlen', 0), di['maxlen'])
+    if t == 'tuple':
+        return D.TupleOf(*[node_datatype(m) for m in di['members']])
+    if t == 'struct':
+        return D.StructOf(list(di['optional']) if 'optional' in di else None,
+                          **{n: node_datatype(m) for n, m in di['members'].items()})
+    raise ValueError(t)
+
+
+def expected_at_driver(di, prev, v):
+    """what the driver has to receive when the caller passes v: v itself; for a struct the members passed, the members
+    left out keep the value they had (partial struct)"""
+    if di['type'] == 'struct' and v[0] == 'd' and prev[0] == 'd':
+        merged = dict((k, x) for k, x in prev[1])
+        merged.update((k, x) for k, x in v[1])
+        return ['d', sorted([k, x] for k, x in merged.items())]
+    return v
 
 
 def _server_side(dt):
@@ -143,8 +211,7 @@ def _run_e2e_once(case):
         script = {}
         attrs = {}
         for pname, di in case['params']:
-            dt = get_datatype(di)
-            _server_side(dt)
+            dt = node_datatype(di)
             attrs[pname] = Parameter(pname, dt, readonly=False)
 
             def wf(self, value, pname=pname):
@@ -212,11 +279,14 @@ def oracle_e2e(case, obs):
     def fail(cls, what):
         fails.append({'class': cls, 'what': what})
 
+    dis = dict((p, di) for p, di in case['params'])
     for (pname, v, r), o in zip(case['writes'], obs['writes']):
         if o['exc']:
-            fail('e2e-write-raised', f'writing {v} to {pname} raised {o["exc"]}')
+            fail('e2e-write-raised', f'writing {v} to {pname} ({dis[pname]}) raised {o["exc"]}; the driver received '
+                                     f'{o["driver"]} (value before: {o["prev"]})')
             continue
-        if len(o['driver']) != 1 or o['driver'][0] != [pname, v]:
+        exp_w = expected_at_driver(dis[pname], o['prev'], v)
+        if len(o['driver']) != 1 or o['driver'][0] != [pname, exp_w]:
             fails.append({'class': 'e2e-driver-value', 'param': pname, 'passed': v, 'received': o['driver'],
                           'previous': o['prev'],
                           'what': f'caller passed {v} for {pname}, the driver received {o["driver"]} '
@@ -272,10 +342,14 @@ def encode_e2e(case, obs):
         oc = T.value(o['cache'][0]) if o['cache'][1] is None else None
         arr = None
         if dis[pname]['type'] == 'array' and got[0] == 't' and o['prev'][0] == 't':
-            arr = (o['prev'][1], v[1], got[1])
+            arr = '(WArr %s %s %s)' % tuple(gal.lst([T.value(x) for x in l], gal.nat) for l in (o['prev'][1], v[1], got[1]))
+        elif dis[pname]['type'] == 'struct' and got[0] == 'd' and o['prev'][0] == 'd' and v[0] == 'd':
+            arr = '(WStruct %s %s %s)' % tuple(
+                gal.lst([(T.member(k), T.value(x)) for k, x in l], lambda kv: '(%s, %s)' % (gal.nat(kv[0]), gal.nat(kv[1])))
+                for l in (o['prev'][1], v[1], got[1]))
         ws.append('(%s, %s, %s, %s, %s, %s)' % (
             gal.nat(dts[pname]), gal.nat(vid), gal.nat(rid), gal.option(ow, gal.nat), gal.option(oc, gal.nat),
-            gal.option(arr, lambda a: '(%s, %s, %s)' % tuple(gal.lst([T.value(x) for x in l], gal.nat) for l in a))))
+            gal.option(arr, lambda a: a)))
     rs = []
     for (pname, r), o in zip(case['reads'], obs['reads']):
         if o['exc']:
@@ -286,6 +360,31 @@ def encode_e2e(case, obs):
     return 'CE2E [%s] [%s] [%s] [%s]' % ('; '.join(exp), '; '.join(imp), '; '.join(ws), '; '.join(rs))
 
 
+def shrink(case):
+    """smaller e2e cases: one write alone on a node with that parameter only, then without the reads, then single
+    writes / reads / unused parameters dropped (every candidate is a real node + client run: keep the list short)"""
+    def only(params, writes, reads):
+        used = {w[0] for w in writes} | {r[0] for r in reads}
+        return dict(case, params=[p for p in params if p[0] in used], writes=writes, reads=reads)
+    ws, rs = case['writes'], case['reads']
+    if len(ws) + len(rs) > 1:
+        for w in ws:
+            yield only(case['params'], [w], [])
+        for r in rs:
+            yield only(case['params'], [], [r])
+    if rs and ws:
+        yield only(case['params'], ws, [])
+    if len(ws) > 1:
+        for i in range(len(ws) - 1, -1, -1):
+            yield only(case['params'], ws[:i] + ws[i + 1:], rs)
+    for i in range(len(rs) - 1, -1, -1):
+        if len(ws) + len(rs) > 1:
+            yield only(case['params'], ws, rs[:i] + rs[i + 1:])
+    for i, w in enumerate(ws):
+        if w[2] is not None:
+            yield dict(case, writes=ws[:i] + [[w[0], w[1], None]] + ws[i + 1:])
+
+
 def nontrivial_key(case, obs):
     if not any(o['exc'] is None for o in obs['writes']):
         return None
@@ -294,6 +393,12 @@ def nontrivial_key(case, obs):
 
 def outcome_labels(case, obs):
     labs = {'e2e'}
+    dis = dict((p, di) for p, di in case['params'])
     for p, di in case['params']:
         labs.add('e2e:' + di['type'])
+    for (p, v, r), o in zip(case['writes'], obs['writes']):
+        if dis[p]['type'] == 'struct' and v[0] == 'd' and len(v[1]) < len(dis[p]['members']) and not o['exc']:
+            labs.add('e2e:partial-struct-written')
+            if set(dis[p].get('optional', [])) == set(dis[p]['members']):
+                labs.add('e2e:partial-struct-all-optional')
     return labs
